@@ -113,7 +113,11 @@ func firstStatus(out string) string {
 // Solve discharges all obligations of vc. dir receives the SMT files.
 func (vc *VC) Solve(dir string, quickMs int, raceS int) {
 	os.MkdirAll(dir, 0o755)
-	base := filepath.Join(dir, sanitize(relFuncName(vc.fn)))
+	pkgName := ""
+	if p := pkgOf(vc.fn); p != nil {
+		pkgName = p.Pkg.Path() + "."
+	}
+	base := filepath.Join(dir, sanitize(pkgName+relFuncName(vc.fn))) // package-qualified: (*Transport).Read exists in several packages
 	if vc.lemma != nil {
 		base = filepath.Join(dir, "lemma."+sanitize(vc.lemma.Name))
 	}
